@@ -239,6 +239,9 @@ func run(id, tier string) (code int) {
 		if u.ThoroughOnly && tier != "thorough" {
 			continue
 		}
+		if u.Pending && os.Getenv("VERIF_PENDING") != "1" {
+			continue
+		}
 		if only := os.Getenv("VERIF_UNITS"); only != "" && !strings.Contains(","+only+",", ","+u.Name+",") {
 			continue // development aid: run a subset of a property's units (evidence then goes to VERIF_EVIDENCE_DIR)
 		}
